@@ -11,3 +11,4 @@ def check(rep, tier):
     from contracts import rules_numeric
     rep.run(rules_numeric.run, rep, tier, clauses=('N-vjp',), only_complex='real-only')
     rep.run(rules_numeric.run_scale, rep)
+    rep.run(rules_numeric.run_lowprec, rep, tier)
